@@ -374,19 +374,20 @@ func main() {
 	out := flag.String("out", "", "output directory for rewritten files and overlay.json")
 	vrtDir := flag.String("vrt", "/verif/vrt", "directory holding the vrt runtime sources")
 	extra := flag.String("extra", "", "comma separated list of dst=src overlay additions (dst relative to the repository root)")
+	race := flag.Bool("race", false, "also insert memory-access notifications for the happens-before race detector (fields of synchronised structs, map operations)")
 	as := flag.String("as", "", "key the overlay under this directory instead of -repo (to check a scratch copy of the repository while the module replace points at /repo)")
 	flag.Parse()
 	if *out == "" {
 		fmt.Fprintln(os.Stderr, "vxform: -out required")
 		os.Exit(2)
 	}
-	if err := run(*repo, *out, *vrtDir, *extra, *as); err != nil {
+	if err := run(*repo, *out, *vrtDir, *extra, *as, *race); err != nil {
 		fmt.Fprintln(os.Stderr, "vxform:", err)
 		os.Exit(2)
 	}
 }
 
-func run(repo, out, vrtDir, extra, as string) error {
+func run(repo, out, vrtDir, extra, as string, race bool) error {
 	keyRoot := repo
 	if as != "" {
 		keyRoot = as
@@ -413,7 +414,7 @@ func run(repo, out, vrtDir, extra, as string) error {
 		files = append(files, f)
 		names = append(names, n)
 	}
-	info := &types.Info{Types: map[ast.Expr]types.TypeAndValue{}, Uses: map[*ast.Ident]types.Object{}}
+	info := &types.Info{Types: map[ast.Expr]types.TypeAndValue{}, Uses: map[*ast.Ident]types.Object{}, Selections: map[*ast.SelectorExpr]*types.Selection{}}
 	var terrs []string
 	conf := types.Config{
 		Importer: importer.ForCompiler(fset, "source", nil),
@@ -421,7 +422,7 @@ func run(repo, out, vrtDir, extra, as string) error {
 	}
 	cwd, _ := os.Getwd()
 	_ = os.Chdir(repo) // the source importer resolves module-local imports relative to the working directory
-	_, _ = conf.Check("github.com/tmaxmax/go-sse", fset, files, info)
+	pkg, _ := conf.Check("github.com/tmaxmax/go-sse", fset, files, info)
 	_ = os.Chdir(cwd)
 	if len(terrs) > 0 {
 		return fmt.Errorf("the repository does not type-check:\n  %s", strings.Join(terrs, "\n  "))
@@ -429,8 +430,20 @@ func run(repo, out, vrtDir, extra, as string) error {
 
 	overlay := map[string]string{}
 	summary := map[string]int{}
+	var rp *racePass
+	if race && pkg != nil {
+		rp = newRacePass(fset, info, pkg)
+	}
 	for i, f := range files {
 		r := &rewriter{fset: fset, info: info, recv2: map[*ast.UnaryExpr]bool{}, counts: map[string]int{}}
+		if rp != nil {
+			before := rp.count
+			rp.file(f)
+			if rp.count > before {
+				r.used = true
+				summary["race:accesses"] += rp.count - before
+			}
+		}
 		// imports
 		for _, im := range f.Imports {
 			p, _ := strconv.Unquote(im.Path.Value)
